@@ -670,6 +670,16 @@ pub fn child(_tier: Tier, job: String, _start: u64, _end: u64, ctx: &mut ChildCt
     // the Real-DashMap history search runs isolated: a guard held across an insert into the same
     // shard self-deadlocks inside the genuine DashMap and is seen by the parent as a hang
     ctx.begin(0);
+    if job.starts_with("free:") {
+        let (threads, millis) = free_running_params(&job);
+        let (done, bad) = free_running(threads, millis);
+        local.evals += done;
+        local.count_n("free-running-queries", done);
+        if let Some((_k, d)) = bad {
+            local.fail("free-running:schedule-changes-answer", json!({"free_running": job}), d);
+        }
+        return;
+    }
     if job == "hist-real" {
         let cold: Vec<String> = queries()
             .iter()
@@ -690,9 +700,76 @@ pub fn child(_tier: Tier, job: String, _start: u64, _end: u64, ctx: &mut ChildCt
     }
 }
 
+/// C14-F, the free-running pass (NOT exhaustive; supplementary to C14-S): the same query bodies on
+/// real OS threads over one shared namespace with the genuine DashMap, for a fixed time. The
+/// cooperative scheduler of C14-S can only switch threads at shard-lock operations; shared state
+/// that is reached without a lock (a memo in atomics, a plain cell) is invisible to it, and is
+/// what this pass is for. Returns (queries answered, first wrong answer).
+fn free_running(threads: usize, millis: u64) -> (u64, Option<(usize, String)>) {
+    let qs = queries();
+    let n = qs.len() - EXTRA;
+    let cold: Vec<String> = qs[..n]
+        .iter()
+        .map(|q| {
+            let b = NsBox::new(hooks::Mode::Real);
+            run_query(b.get(), q)
+        })
+        .collect();
+    let nsb = NsBox::new(hooks::Mode::Real);
+    let ns = nsb.get();
+    let stop = std::sync::atomic::AtomicBool::new(false);
+    let total = std::sync::atomic::AtomicU64::new(0);
+    let bad: std::sync::Mutex<Option<(usize, String)>> = std::sync::Mutex::new(None);
+    let barrier = std::sync::Barrier::new(threads + 1);
+    std::thread::scope(|sc| {
+        for t in 0..threads {
+            let (qs, cold, stop, total, bad, barrier) = (&qs, &cold, &stop, &total, &bad, &barrier);
+            sc.spawn(move || {
+                barrier.wait();
+                let mut done = 0u64;
+                let mut round = 0usize;
+                // thread t walks the queries with its own stride and phase, and in between hammers
+                // one pair of neighbouring queries (tight alternation of two different questions)
+                'outer: while !stop.load(std::sync::atomic::Ordering::Relaxed) {
+                    round += 1;
+                    let stride = 1 + (t + round) % (n - 1);
+                    let mut i = (t * 7 + round) % n;
+                    for _ in 0..n {
+                        for k in [i, (i + 1 + t) % n, i] {
+                            let a = run_query(ns, &qs[k]);
+                            done += 1;
+                            if a != cold[k] {
+                                let mut b = bad.lock().unwrap();
+                                if b.is_none() {
+                                    *b = Some((k, format!("thread {t} of {threads}: query {:?} answered {a:?}, alone it answers {:?}", qs[k], cold[k])));
+                                }
+                                stop.store(true, std::sync::atomic::Ordering::Relaxed);
+                                break 'outer;
+                            }
+                        }
+                        i = (i + stride) % n;
+                    }
+                }
+                total.fetch_add(done, std::sync::atomic::Ordering::Relaxed);
+            });
+        }
+        barrier.wait();
+        std::thread::sleep(std::time::Duration::from_millis(millis));
+        stop.store(true, std::sync::atomic::Ordering::Relaxed);
+    });
+    let b = bad.lock().unwrap().clone();
+    (total.load(std::sync::atomic::Ordering::Relaxed), b)
+}
+
+fn free_running_params(job: &str) -> (usize, u64) {
+    // "free:<threads>:<millis>"
+    let mut it = job.split(':').skip(1);
+    (it.next().and_then(|x| x.parse().ok()).unwrap_or(4), it.next().and_then(|x| x.parse().ok()).unwrap_or(1500))
+}
+
 pub fn run(tier: Tier) -> i32 {
     let mut run = Run::new("C14", tier, "model_checking");
-    run.rule = "subject: the real Namespace code over the hook shim. C14-H (E3): breadth-first search from the cold namespace; transition = one of 40 concrete queries (supertypes_of, all_supertypes_of, inheritance, fits and its four wrappers, reflect, Reflection::fits, def_of_dict, tags, is, tag_on, implementation, protos with flattened children, all_subtypes_of, has_relationship with cyclic refs) on a 22-def scenario namespace (two computed associations) (diamond, conjunct, entity, transitive relationship, reciprocal association, children prototypes) rebuilt by replaying the history; state = cache snapshot; to closure; every answer = cold answer = graph answer; run on the genuine DashMap (isolated child, watchdog) and on the Shim (single scheduled thread, all keys in one shard, so a self-deadlock is seen): both transition graphs must be identical. C14-P: every ordered pair of queries (thorough: every triple) and every query after 12 repetitions of every other one, from the cold namespace, independent of cache snapshots (hidden memos). C14-V: every query after 1100 / 2200 look-ups of symbols no def names (volume: more entries than any fixed cache bound) still gives its cold answer. C14-S (E4+E2): scenarios (a) 2 threads x 1 query, all 55 unordered pairs of a 10-query core, from the cold state, from warm states and after the volume warm-up; (b) 2 threads x 2 queries; (c) 3 threads x 1 query, all 220 multisets; for the two extreme shard partitions (thorough: every partition of the touched supertypes keys); every schedule with <= b preemptions (scheduling points: every shard-lock acquisition, thread start/exit). Oracle per execution: no deadlock, no panic, every answer equals the answer given alone, every final cache entry occurs in the sequential closure. states = cache states of C14-H + scenario configurations, transitions = history steps + schedules executed".into();
+    run.rule = "subject: the real Namespace code over the hook shim. C14-H (E3): breadth-first search from the cold namespace; transition = one of 40 concrete queries (supertypes_of, all_supertypes_of, inheritance, fits and its four wrappers, reflect, Reflection::fits, def_of_dict, tags, is, tag_on, implementation, protos with flattened children, all_subtypes_of, has_relationship with cyclic refs) on a 22-def scenario namespace (two computed associations) (diamond, conjunct, entity, transitive relationship, reciprocal association, children prototypes) rebuilt by replaying the history; state = cache snapshot; to closure; every answer = cold answer = graph answer; run on the genuine DashMap (isolated child, watchdog) and on the Shim (single scheduled thread, all keys in one shard, so a self-deadlock is seen): both transition graphs must be identical. C14-P: every ordered pair of queries (thorough: every triple) and every query after 12 repetitions of every other one, from the cold namespace, independent of cache snapshots (hidden memos). C14-V: every query after 1100 / 2200 look-ups of symbols no def names (volume: more entries than any fixed cache bound) still gives its cold answer. C14-S (E4+E2): scenarios (a) 2 threads x 1 query, all 55 unordered pairs of a 10-query core, from the cold state, from warm states and after the volume warm-up; (b) 2 threads x 2 queries; (c) 3 threads x 1 query, all 220 multisets; for the two extreme shard partitions (thorough: every partition of the touched supertypes keys); every schedule with <= b preemptions (scheduling points: every shard-lock acquisition, thread start/exit). Oracle per execution: no deadlock, no panic, every answer equals the answer given alone, every final cache entry occurs in the sequential closure. C14-F (supplementary, NOT exhaustive — a free-running pass for shared state reached without a shard lock, which the cooperative scheduler cannot preempt): 2 / 8 (thorough 2 / 4 / 16) OS threads answer all queries over one shared namespace with the genuine DashMap for 1.2-1.5 s (thorough 6-15 s), every answer compared with the answer given alone. states = cache states of C14-H + scenario configurations, transitions = history steps + schedules executed".into();
     run.assume("DashMap's own lock is trusted; the Shim models it as a reader-preferring RW lock per shard (shared granted unless a writer holds; exclusive needs the shard free) — read from dashmap-6.1.0/src/lock.rs — and is bound to the genuine DashMap by the identical C14-H transition graphs");
     run.assume("scheduling points at lock acquisitions suffice: all shared data is reached only under those locks");
     run.assume("2 and 3 threads explored exhaustively within the preemption bound; 4-16 threads are out of reach of exhaustive exploration");
@@ -864,8 +941,21 @@ pub fn run(tier: Tier) -> i32 {
         }
         run.note("preemption_bound_completed", json!({"2 threads": maxb, "3 threads": maxb.min(2), "supertypes_of x supertypes_of": "unbounded"}));
     }
+    // ---- C14-F: free-running pass on real threads (supplementary, not exhaustive)
+    if hs.failure.is_none() {
+        for (threads, millis) in tier.pick(vec![(2usize, 1200u64), (8, 1500)], vec![(2, 6000), (4, 6000), (16, 15000)]) {
+            let name = format!("free:{threads}:{millis}");
+            let n2 = name.clone();
+            let describe = move |_o: u64| json!({"free_running": n2});
+            let job = Job { prop: "C14", tier: tier.name(), job: &name, n: 1, chunk: 1, env: vec![], exe: None, describe: &describe };
+            let l = run_job(&job);
+            run.absorb(l);
+        }
+        run.note("free_running_queries_answered", json!(run.counter("free-running-queries")));
+    }
     run.exhaustive = run.counter("capped-scenarios") == 0;
     if run.stats.fails.is_empty() {
+        run.require(run.counter("free-running-queries") > 10_000, "free-running pass answered too few queries");
         run.require(hs.states.len() > 20, "history search found too few cache states");
         run.require(run.counter("schedules") > 10_000, "too few schedules");
         run.require(run.counter("double-miss-executions") > 0, "no execution in which two threads both filled the same shard");
@@ -883,6 +973,19 @@ pub fn replay(case: &J) -> Verdict {
         Ok(c) => c,
         Err((sig, d)) => return Err((format!("{sig}:shim"), d)),
     };
+    if let Some(name) = case["free_running"].as_str() {
+        // not a deterministic schedule: the pass is repeated (three times as long) until it fails again
+        let (threads, millis) = free_running_params(name);
+        let name = format!("free:{threads}:{}", millis * 3);
+        let n2 = name.clone();
+        let describe = move |_o: u64| json!({"free_running": n2});
+        let job = Job { prop: "C14", tier: "quick", job: &name, n: 1, chunk: 1, env: vec![], exe: None, describe: &describe };
+        let l = run_job(&job);
+        return match l.fails.values().next() {
+            Some(f) => Err((f.sig.clone(), "an answer given under real concurrency differs from the answer given alone".into())),
+            None => Ok(()),
+        };
+    }
     let r = RefNs::make(&scenario_rows());
     if let Some(h) = case["history"].as_array() {
         // one concrete history (pair / repetition / volume families)
